@@ -359,7 +359,11 @@ class Negative(Term):
         return self.term.is_aggregate
 
     def get_sql(self, ctx: SqlContext) -> str:
-        return "-{term}".format(term=self.term.get_sql(ctx))
+        term = self.term.get_sql(ctx)
+        if term.startswith("-"):
+            # "--" starts a comment in SQL: negating something that already begins with a minus needs brackets
+            term = "({})".format(term)
+        return "-{term}".format(term=term)
 
 
 class ValueWrapper(Term):
@@ -1166,14 +1170,18 @@ class ArithmeticExpression(Term):
     def get_sql(self, ctx: SqlContext) -> str:
         left_op, right_op = [getattr(side, "operator", None) for side in [self.left, self.right]]
 
+        # the left operand is rendered first: parameters are numbered in reading order
+        left = ("({})" if self.left_needs_parens(self.operator, left_op) else "{}").format(
+            self.left.get_sql(ctx)
+        )
+        right = self.right.get_sql(ctx)
+        if self.right_needs_parens(self.operator, right_op) or (
+            self.operator == Arithmetic.sub and right.startswith("-")
+        ):
+            # x - -1 must not come out as x--1: "--" starts a comment in SQL
+            right = "({})".format(right)
         arithmetic_sql = "{left}{operator}{right}".format(
-            operator=self.operator.value,
-            left=("({})" if self.left_needs_parens(self.operator, left_op) else "{}").format(
-                self.left.get_sql(ctx)
-            ),
-            right=("({})" if self.right_needs_parens(self.operator, right_op) else "{}").format(
-                self.right.get_sql(ctx)
-            ),
+            operator=self.operator.value, left=left, right=right
         )
 
         if ctx.with_alias:
